@@ -45,7 +45,7 @@ RULE = ("generated ODX containers (1-2 base variants x 1-6 services; requests = 
         "used DOP} applied to the XML of one side, judged in both orientations through "
         "compare_diagnostic_layers and compare_databases. Distinct = (container, edit, "
         "orientation); non-trivial = the edited XML differs from the original and loads")
-MIN_EVALS = {"quick": 20000, "thorough": 1000000}
+MIN_EVALS = {"quick": 20000, "thorough": 800000}
 ASSUMPTIONS = [
     "compare_databases is used the way the CLI uses it: Comparison.diagnostic_layer_names is "
     "set to the names of all layers of both databases",
@@ -1065,7 +1065,7 @@ REQUIRED = (["kind:add", "kind:delete", "kind:rename", "kind:param-change",
 
 
 def run(tier: str, col: common.Collector) -> None:
-    per_worker = 4 if tier == "quick" else 240
+    per_worker = 4 if tier == "quick" else 150
     nworkers = max(common.NCPU, 16)  # the workload does not depend on the machine
     tasks = [(w, per_worker) for w in range(nworkers)]
     with zipfile.ZipFile(os.path.join(common.REPO, "examples", "somersault.pdx")) as z:
